@@ -220,6 +220,39 @@ def _implementation_clauses():
     ]
 
 
+def _extension_member_clauses(pairs):
+    """pairs: [(membership test text, set name)] - for every member an extension adds: a name that is already known (from the definition or from an
+    earlier extension member) is refused with ExtensionError, a new one is recorded in the set before the next member is examined"""
+    def make(test, setname):
+        def dup(p):
+            a = p.assumed(test)
+            if a is None:
+                return None
+            from py_gql.exc import ExtensionError
+            if a:
+                return p.outcome == "raise" and exc_is(p.payload, ExtensionError)
+            # new name: recorded (unless the path is cut short by an exception raised later in the same iteration)
+            return True if ("add:%s" % setname) in p.events else (None if p.outcome == "raise" else False)
+        return dup
+    out = []
+    for test, setname in pairs:
+        out.append(("duplicates-among-%s-refused-and-new-names-recorded" % setname,
+                    "a member whose name is already in `%s` is refused with ExtensionError; a new name is added to `%s` so that a later duplicate is seen" % (setname, setname),
+                    make(test, setname)))
+    return out
+
+
+def _set_add_label(call, args, kwargs):
+    return "add:%s" % call.func.value.id
+
+
+def _extend_contract(name, pairs, inner=None):
+    return dict(id="ASTTypeBuilder.%s" % name, target="py_gql.sdl.ast_type_builder:ASTTypeBuilder.%s" % name, inner=inner, props=["C11"],
+                config=Config(events=[(r"^\w+_names\.add$", _set_add_label)],
+                              nothrow=[r"_names\.add$", r"^ExtensionError$", r"^set$", r"^cast$", r"\.append$", r"_collect_extensions$"]),
+                clauses=_extension_member_clauses(pairs), assumes=[])
+
+
 FIELD_EVENTS = [(r"on_field_start$", "field+"), (r"on_field_end$", "field-"), (r"^resolver$", "resolver"),
                 (r"self\.complete_value$", "complete"), (r"self\.add_error$", "add_error")]
 FIELD_NOTHROW = [r"on_field_(start|end)$", r"self\.add_error$", r"^ResolveInfo$"]
@@ -1202,4 +1235,9 @@ TRACE_CONTRACTS = [
                        raises=[(r"^inst\.enter$", [__import__("py_gql.lang.visitor", fromlist=["SkipNode"]).SkipNode])]),
          clauses=_visit_clauses(),
          assumes=["enter raises nothing but SkipNode for the purposes of this contract (other exceptions abort the whole visit)"]),
+    _extend_contract("_extend_object_type", [("ext_field.name.value in field_names", "field_names"), ("ext_interface.name.value in interface_names", "interface_names")]),
+    _extend_contract("_extend_interface_type", [("ext_field.name.value in field_names", "field_names")]),
+    _extend_contract("_extend_enum_type", [("value.name.value in value_names", "value_names")]),
+    _extend_contract("_extend_union_type", [("type_def.name.value in member_names", "member_names")]),
+    _extend_contract("_extend_input_object_type", [("ext_field.name.value in field_names", "field_names")], inner="fields"),
 ] + _multi_contracts()
